@@ -203,6 +203,9 @@ func (g *gen) usageOp(kind string, s *sessState, final, overuse, offline, partia
 	for k := 0; k < n; k++ {
 		rg := s.rgs[(perm+k)%len(s.rgs)]
 		u := Unit{RG: rg, Req: g.reqVol(g.costOf(s.supi, rg)), UPFID: "upf1"}
+		if g.r.Chance(80) {
+			u.NoReq = true // a pure usage report: no further quota is asked for
+		}
 		nc := 1 + g.r.Intn(2)
 		for c := 0; c < nc; c++ {
 			if offline && g.r.Chance(250) {
@@ -301,6 +304,9 @@ func GenC06(seed uint64) *Scenario {
 			u := Unit{RG: rg, Req: v, Containers: []Container{g.online(p)}}
 			if g.r.Chance(150) {
 				u.Containers = append(u.Containers, g.online(g.r.Intn(1001)))
+			}
+			if g.r.Chance(100) {
+				u.NoReq = true // usage report without a request for more quota
 			}
 			op.Units = append(op.Units, u)
 		}
